@@ -74,3 +74,26 @@ def run_lines(exe, lines, timeout=3600, chunks=None, env=None):
 
 def hexs(s):
     return s.encode("utf-8").hex()
+
+
+def parse_many(harness, reqs, ddp=None, timeout=3600):
+    """reqs: list of dicts {files, main, dump?}. Runs `harness parse` in-process
+    (parallel chunks); returns list of response dicts. A crashed harness chunk yields
+    {'result': 'crash', ...} for the offending request."""
+    import json
+    from . import pipeline
+    ddp = ddp or pipeline.build()
+    env = dict(os.environ)
+    env["DDPPATH"] = ddp
+    work = os.path.join(CACHE, "work")
+    os.makedirs(work, exist_ok=True)
+    env["VERIF_WORK"] = work
+    lines = ["parse " + json.dumps(r, ensure_ascii=False).encode("utf-8").hex() for r in reqs]
+    outs = run_lines(harness, lines, timeout=timeout, env=env, chunks=(NPROC if len(lines) >= 32 else 1))
+    res = []
+    for o in outs:
+        try:
+            res.append(json.loads(o))
+        except Exception:
+            res.append({"result": "crash", "raw": o[:500], "diags": [], "faulty": None})
+    return res
